@@ -136,6 +136,7 @@ const (
 	gMax                  // lists as long as the limit / the byte budget allows, all-ones data
 	gBound                // list lengths at chunk (32-byte) boundaries and at limit-1 / limit
 	gRand                 // per-node random choice
+	gDistinct             // every scalar leaf a different non-zero value (neighbouring same-typed fields differ); lists one element
 )
 
 type generator struct {
@@ -143,6 +144,7 @@ type generator struct {
 	mode   genMode
 	budget int64 // bytes that variable-size parts may still consume
 	// overList >= 0: the overList-th list-like node (list, bitlist, byteList) met during generation gets limit+1 elements
+	counter    int
 	overList   int
 	overBudget int64
 	listSeen   int
@@ -165,6 +167,9 @@ func perByte(per uint64) uint64 {
 }
 
 func (g *generator) nodeMode() genMode {
+	if g.mode == gDistinct {
+		return gDistinct
+	}
 	if g.mode != gRand {
 		return g.mode
 	}
@@ -192,6 +197,11 @@ func (g *generator) fill(n int, m genMode) []byte {
 	case gMax:
 		for i := range b {
 			b[i] = 0xff
+		}
+	case gDistinct:
+		g.counter++
+		for i := range b {
+			b[i] = byte(g.counter*37 + i*11 + 1)
 		}
 	default:
 		g.rng.Read(b)
@@ -221,7 +231,7 @@ func (g *generator) pickLen(limit uint64, unit uint64, per uint64, m genMode) ui
 	switch m {
 	case gEmpty:
 		n = 0
-	case gMin:
+	case gMin, gDistinct:
 		n = 1
 	case gMax:
 		n = feasible
@@ -325,6 +335,8 @@ func (g *generator) bits(n int, m genMode) []bool {
 		case gEmpty:
 		case gMin:
 			out[i] = i == 0
+		case gDistinct:
+			out[i] = (i*7+g.counter)%3 == 0
 		case gMax:
 			out[i] = true
 		default:
